@@ -24,7 +24,7 @@ def main():
             jobs.append(Job(name='c11_codec_op%02x_%s' % (b, 'encdec' if d == 0 else 'decenc'), harness='c11_codec.c',
                             sources=['src/nanoisa/isa.c'], defines={'OPC': b, 'IS_OPCODE': 1 if b in ops else 0, 'DIRECTION': d},
                             unwind=41, unwindset=['isa_encode.0:5','isa_encode.1:5','isa_decode.0:5'],
-                            must_witness=(['done'] if b in ops else ['refused']), timeout=300 if tier == 'thorough' else 120, group='codec',
+                            must_witness=(['done'] if b in ops else ['refused']), timeout=900, group='codec',
                             desc={'opcode_byte': '0x%02x' % b, 'mnemonic': ops.get(b, '(undefined)'),
                                   'direction': 'decode(encode(i))=i' if d == 0 else 'encode(decode(b))=b',
                                   'symbolic': 'all operand payload bits (4x64), buffer length 0..32, all buffer bytes, truncation length'}))
